@@ -42,6 +42,48 @@ func envSnapshot(env map[string]interface{}) string {
 	return sb.String()
 }
 
+// variedEnv: the same keys with other values of the same Go types
+func variedEnv(env map[string]interface{}) map[string]interface{} {
+	out := map[string]interface{}{}
+	for k, v := range env {
+		switch x := v.(type) {
+		case bool:
+			out[k] = !x
+		case int:
+			if strings.HasPrefix(k, "...") {
+				out[k] = x
+			} else {
+				out[k] = x ^ 1
+			}
+		case int8:
+			out[k] = x ^ 1
+		case int16:
+			out[k] = x ^ 1
+		case int32:
+			out[k] = x ^ 1
+		case int64:
+			out[k] = x ^ 1
+		case uint:
+			out[k] = x ^ 1
+		case uint8:
+			out[k] = x ^ 1
+		case uint16:
+			out[k] = x ^ 1
+		case uint32:
+			out[k] = x ^ 1
+		case uint64:
+			out[k] = x ^ 1
+		case float32:
+			out[k] = -x
+		case float64:
+			out[k] = -x
+		default:
+			out[k] = v
+		}
+	}
+	return out
+}
+
 func implFillItem(t []string) string {
 	steps := splitSteps(t)
 	p := &toks{t: steps[0]}
@@ -74,6 +116,12 @@ func implFillItem(t []string) string {
 		if tmplAfter := showItem(cur); tmplAfter != tmplBefore {
 			mut += " TEMPLATE-CHANGED" // the template that was filled is no longer what it was
 		} else if !pan {
+			// a second fill of the same template with other values leaves the first result alone
+			firstResult := showItem(next)
+			safely(func() { cur.FillVariables(variedEnv(env)) })
+			if showItem(next) != firstResult {
+				mut += " EARLIER-RESULT-CHANGED"
+			}
 			// ... and filling the same template again gives the same item
 			var again ast.ItemNode
 			if p2, _ := safely(func() { again = cur.FillVariables(env) }); p2 || showItem(again) != showItem(next) {
@@ -380,6 +428,7 @@ func fillOutOfDomain(c *Ctx) []Case {
 
 func suiteC09(c *Ctx) []Suite {
 	return []Suite{
+		{Name: "fill/renames-and-refusals", Gen: fillOutOfDomain},
 		{Name: "fill/substitution-and-composition", Gen: func(c *Ctx) []Case {
 			var out []Case
 			for i := 0; i < c.N(2500); i++ {
@@ -702,8 +751,15 @@ func ellipsisCases(c *Ctx, n int, maxDepth int, maxCount int) []Case {
 			}
 			sort.Strings(keys)
 			parts := []string{}
+			wrongType := ""
 			for _, k := range keys {
-				parts = append(parts, hxs(k), sintTok(0, int64(asg[k])))
+				tok := sintTok(0, int64(asg[k]))
+				if c.R.Intn(25) == 0 && wrongType == "" {
+					// a repeat count that is not a Go int is not a repeat count
+					tok = []string{sintTok(64, int64(asg[k])), uintTok(8, uint64(asg[k])), "f64:4611686018427387904", strTok(fmt.Sprint(asg[k])), "b:1", sintTok(32, int64(asg[k]))}[c.R.Intn(6)]
+					wrongType = tok
+				}
+				parts = append(parts, hxs(k), tok)
 			}
 			// sometimes fill an ordinary variable in the same call, or a later step
 			op := "fillitem " + tmpl.Proto() + " | " + fmt.Sprint(len(keys)) + " " + strings.Join(parts, " ")
@@ -716,8 +772,11 @@ func ellipsisCases(c *Ctx, n int, maxDepth int, maxCount int) []Case {
 					hasIdx = true
 				}
 			}
-			if !hasIdx {
+			if !hasIdx && wrongType == "" {
 				cs.Oracle = ellipsisOracle(tmpl, asg)
+			}
+			if wrongType != "" {
+				cs.Tags = append(cs.Tags, "count-of-wrong-type")
 			}
 			out = append(out, cs)
 		}
